@@ -69,6 +69,14 @@ def prepare_corpus(pid=None, tier=None):
             with open(os.path.join(out, name), "wb") as f:
                 f.write(data)
             n += 1
+    if pid in ("C03", "C15", "C16"):
+        # large files whose multi-byte characters straddle every block boundary (three alignments)
+        import pipeline
+        wide = pipeline.contents()
+        for k in range(3):
+            with open(os.path.join(out, "d_wide%d.sol" % k), "wb") as f:
+                f.write(wide["w%d" % k])
+            n += 1
     if pid == "C04":
         # boundary-value matrix: every pair of binary operators over every pair of boundary literals, all bracketings
         for part in range(randsol.MATRIX_PARTS):
@@ -896,6 +904,10 @@ def _pipeline(chk, tier, pid, beh):
              {"entries": [fl("A.sol", "c1"), fl("Deep.sol", "c10"), dr("sub", [fl("Deep2.sol", "c10"), fl("Z.sol", "c2")]), fl("Z.sol", "c5")]},
              # a file of free functions, structs and constants only (c12), alone in its directory and next to others
              {"entries": [dr("types", [fl("Free.sol", "c12")]), fl("Other.sol", "c2"), fl("Free2.sol", "c12")]},
+             # every pair of vulnerability patterns meets in a run although no file has both: a floating pragma (low) and
+             # a selfdestruct (high) in one file, a token call (low) and a division before a multiplication (medium) in another
+             {"entries": [fl("Float.sol", "c16"), fl("Erc.sol", "c1")]},
+             {"entries": [dr("a", [fl("Erc.sol", "c1")]), dr("b", [fl("Float.sol", "c16")])]},
              # one file declares state variables, another one WRITES variables of the same names (and the reverse)
              {"entries": [fl("A.sol", "c1"), fl("B.sol", "c14"), dr("more", [fl("C.sol", "c15"), fl("D.sol", "c14")])]},
              # large files whose multi-byte characters straddle every block boundary
